@@ -237,6 +237,74 @@ func (s *Set) M__xor__(other Object) (Object, error) {
 	return ret, nil
 }
 
+// The in place operators change the set itself, so that everything
+// which refers to it sees the result
+
+func (s *Set) M__ior__(other Object) (Object, error) {
+	b, ok := other.(*Set)
+	if !ok {
+		return NotImplemented, nil
+	}
+	for i := range b.items {
+		s.items[i] = SetValue{}
+	}
+	return s, nil
+}
+
+func (s *Set) M__iand__(other Object) (Object, error) {
+	b, ok := other.(*Set)
+	if !ok {
+		return NotImplemented, nil
+	}
+	for i := range s.items {
+		if _, ok := b.items[i]; !ok {
+			delete(s.items, i)
+		}
+	}
+	return s, nil
+}
+
+func (s *Set) M__isub__(other Object) (Object, error) {
+	b, ok := other.(*Set)
+	if !ok {
+		return NotImplemented, nil
+	}
+	if b == s {
+		s.items = make(map[Object]SetValue)
+		return s, nil
+	}
+	for i := range b.items {
+		delete(s.items, i)
+	}
+	return s, nil
+}
+
+func (s *Set) M__ixor__(other Object) (Object, error) {
+	b, ok := other.(*Set)
+	if !ok {
+		return NotImplemented, nil
+	}
+	if b == s {
+		s.items = make(map[Object]SetValue)
+		return s, nil
+	}
+	for i := range b.items {
+		if _, ok := s.items[i]; ok {
+			delete(s.items, i)
+		} else {
+			s.items[i] = SetValue{}
+		}
+	}
+	return s, nil
+}
+
+// A frozenset never changes: its in place operators make a new object
+
+func (s *FrozenSet) M__ior__(other Object) (Object, error)  { return NotImplemented, nil }
+func (s *FrozenSet) M__iand__(other Object) (Object, error) { return NotImplemented, nil }
+func (s *FrozenSet) M__isub__(other Object) (Object, error) { return NotImplemented, nil }
+func (s *FrozenSet) M__ixor__(other Object) (Object, error) { return NotImplemented, nil }
+
 // Check interface is satisfied
 var _ I__len__ = (*Set)(nil)
 var _ I__bool__ = (*Set)(nil)
